@@ -158,7 +158,14 @@ def run_impl(modname, cases, workdir, tz="UTC", shards=None, timeout=3000):
         env = dict(os.environ)
         env.update({"PYTHONPATH": REPO + os.pathsep + VERIF, "PYTHONHASHSEED": "0",
                     "TZ": tz, GUARD: "1", "PYTHONDONTWRITEBYTECODE": "1"})
-        p = subprocess.Popen([PY, "-W", "ignore", os.path.join(VERIF, "harness", "implrun.py"),
+        cmd = [PY, "-W", "ignore"]
+        if os.environ.get("VERIF_COVERAGE"):
+            # measure which lines/branches of labella/*.py the tie's cases actually execute
+            covdir = os.environ["VERIF_COVERAGE"]
+            os.makedirs(covdir, exist_ok=True)
+            cmd += ["-m", "coverage", "run", "--branch", "--source=" + os.path.join(REPO, "labella"),
+                    "--data-file=" + os.path.join(covdir, ".coverage.%s.%s.%d.%d" % (modname, tz.replace("/", "_"), s, os.getpid()))]
+        p = subprocess.Popen(cmd + [os.path.join(VERIF, "harness", "implrun.py"),
                               modname, fin, fout], cwd=REPO, env=env,
                              stdout=subprocess.PIPE, stderr=subprocess.PIPE, text=True)
         procs.append((p, fout, len(part), s))
